@@ -51,6 +51,8 @@ def run(ctx, replay):
         s = ctx.seed
         runs = [dict(name="trace", G=8, N=40 if quick else 400, seed=s * 11 + 1, mode="trace", race=False),
                 dict(name="barrier", G=6, N=40 if quick else 300, seed=s * 11 + 2, mode="barrier", race=False),
+                dict(name="slow", G=12, N=60 if quick else 400, seed=s * 11 + 8, mode="slow", race=False),
+                dict(name="race-slow", G=12, N=60 if quick else 300, seed=s * 11 + 9, mode="free-slow", race=True),
                 dict(name="race-free", G=16 if quick else 64, N=60 if quick else 400, seed=s * 11 + 3, mode="free", race=True),
                 dict(name="race-barrier", G=8, N=40 if quick else 300, seed=s * 11 + 4, mode="barrier", race=True)]
         if not quick:
@@ -81,6 +83,8 @@ def run(ctx, replay):
         for why, lines in whys.items():
             row = rows[lines[0] - 1]
             key = "trace:" + ("shared-sort" if "sort" in why else "tear" if "payload" in why else "multiset" if "multiset" in why else "ownership")
+            if "in place" in why and not any("same time" in w for w in whys):
+                key = "trace:shared-sort-inplace"
             ctx.finding(key, "%s (run %s, %d event(s), first at line %d: %s)" % (why, rn["name"], len(lines), lines[0], json.dumps(row)[:600]),
                         dict(kind="pool", run=rn))
         ctx.nontrivial += len(set((r.get("ev"), r.get("class", ""), r.get("same", True)) for r in rows)) + sum(
